@@ -286,7 +286,7 @@ def run(ctx):
         ops = json.load(open(ctx.replay)).get("ops", [])
     else:
         corpus = [l.strip() for l in open(os.path.join(HERE, "corpus.ops")) if l.strip() and not l.startswith("#")]
-        ops = corpus + gen_ops(ctx.rng, facts, ctx.scale(500, 15000))
+        ops = corpus + gen_ops(ctx.rng, facts, ctx.scale(500, 10000))
     ctx.log(f"harness built; {len(ops)} op lines")
     model = ctx.lean_run(["stamp"] + ops)
     if model is None:
